@@ -123,6 +123,26 @@ pub fn run_c12(a: &Args) {
         let (e, _, t) = check(&s, &mut st); st.evaluations += 1; st.distinct_nontrivial += 1;
         out.case(&format!("escape {}", cps(&s)), &cps(&e)); out.case(&format!("strip {}", cps(&s)), &cps(&t));
     }
+    // segment strings: runs in different scripts (Latin-1 letters whose bytes are lead bytes of the CJK codepages included) joined by
+    // colour codes (^8 resets the codepage), carets, escaped characters and codepage letters: every sequence of up to 4 segments of
+    // one pool, then random longer ones
+    let segs: Vec<&str> = vec!["\u{7f8e}", "\u{e9}", "\u{e9}\u{e0}", "\u{448}", "^8", "^1", "^", "L", "J", "\u{ff8f}", "a", "|", "\u{3b1}", "\u{e9}\u{e0}\u{fc}"];
+    let smax = if a.thorough() { 5 } else { 4 };
+    let mut sidx: Vec<usize> = vec![];
+    loop {
+        let s: String = sidx.iter().map(|i| segs[*i]).collect();
+        let (e, _, t) = check(&s, &mut st); st.evaluations += 1; st.distinct_nontrivial += 1; st.bump("segment strings");
+        if st.evaluations % 7 == 0 { out.case(&format!("escape {}", cps(&s)), &cps(&e)); out.case(&format!("strip {}", cps(&s)), &cps(&t)); }
+        let mut k = sidx.len();
+        loop { if k == 0 { sidx = vec![0; sidx.len() + 1]; break; } k -= 1; if sidx[k] + 1 < segs.len() { sidx[k] += 1; for j in k + 1..sidx.len() { sidx[j] = 0; } break; } }
+        if sidx.len() > smax { break; }
+    }
+    st.exhaustive.push(format!("all sequences of <= {smax} segments over a {}-segment pool (CJK, Latin-1 runs of length 1-3 in the CJK lead-byte ranges, Cyrillic, Greek, half-width kana, ^8, ^1, caret, codepage letters, reserved character)", segs.len()));
+    for _ in 0..(if a.thorough() { 100_000 } else { 10_000 }) {
+        let n = rng.range(3, 9) as usize;
+        let s: String = (0..n).map(|_| *rng.pick(&segs)).collect();
+        let _ = check(&s, &mut st); st.evaluations += 1; st.bump("segment strings");
+    }
     st.rule = "real escape / unescape / strip and the escape -> to_lossy_bytes -> to_lossy_string -> unescape composition: exhaustive over a class alphabet up to a bounded length, random Unicode strings up to 40 characters; non-trivial = contains a caret / random".into();
     st.sample("escape ^|*1 -> ^^^v^a1".into());
     out.finish(&st);
